@@ -28,6 +28,10 @@ func stackAlphabet(cfg Cfg, withEvict bool) []wire.Op {
 		p(wire.Op{Kind: "touch", Key: "a", TTL: 3600})
 		if bin {
 			p(wire.Op{Kind: "gat", Key: "a", TTL: 0})
+			// quiet writes: silent on success, reported when refused
+			p(wire.Op{Kind: "replace", Key: "b", Val: "r", Flags: 6, QuietW: true})
+			p(wire.Op{Kind: "add", Key: "a", Val: "n", Flags: 8, QuietW: true})
+			p(wire.Op{Kind: "append", Key: "b", Val: "u", QuietW: true})
 		}
 		p(wire.Op{Kind: "get", Key: "b"})
 		p(wire.Op{Kind: "set", Key: "b", Val: "x", Flags: 5, TTL: 0})
